@@ -42,6 +42,17 @@ impl<T: Ev> Expr<T> {
             Expr::Neg(a) => -a.eval(x), Expr::Sin(a) => a.eval(x).esin(), Expr::Cos(a) => a.eval(x).ecos(), Expr::Exp(a) => a.eval(x).eexp(), Expr::Abs(a) => a.eval(x).eabs(),
         }
     }
+    /// largest magnitude of any intermediate value of the evaluation at `x` (the rounding error of the computed value is
+    /// proportional to it, not to the final value, which may be small by cancellation)
+    pub fn peak(&self, x: &[T], mag: &dyn Fn(&T) -> f64) -> f64 {
+        let here = mag(&self.eval(x));
+        let sub = match self {
+            Expr::Var(_) | Expr::Const(_) => 0.0,
+            Expr::Add(a, b) | Expr::Sub(a, b) | Expr::Mul(a, b) | Expr::Div(a, b) => a.peak(x, mag).max(b.peak(x, mag)),
+            Expr::Neg(a) | Expr::Sin(a) | Expr::Cos(a) | Expr::Exp(a) | Expr::Abs(a) => a.peak(x, mag),
+        };
+        here.max(sub)
+    }
     /// symbolic partial derivative (oracle only; `abs` is treated as non-differentiable → None)
     pub fn diff(&self, j: usize) -> Option<Expr<T>> {
         let bx = |e: Expr<T>| Box::new(e);
